@@ -61,7 +61,7 @@ type topicCfg struct {
 }
 
 type opCfg struct {
-	Topic  int  `json:"t"`
+	Topic  int  `json:"t"` // -1: the unsubscribed topic
 	Async  bool `json:"async,omitempty"`
 	SendMs int  `json:"send_ms"` // -1: Send (blocks), 0: SendTimeout(0) non-blocking, >0: SendTimeout
 	WaitUs int  `json:"wait_us"` // 0: Wait (blocks), >0: WaitTimeout
@@ -72,6 +72,9 @@ type opCfg struct {
 
 type reqCfg struct {
 	Client int     `json:"client"` // -1: own send-only client; k: the subscribed client of topic k
+	// Orphan: all ops go to topic -1, a topic nobody subscribes (a disabled module; queue_test.go does the same).
+	// Nothing ever replies there, so only queue.Close() can end its blocking calls: it is joined after the shutdown.
+	Orphan bool    `json:"orphan,omitempty"`
 	Window int     `json:"window"` // send Window requests, then wait for each (1 = strict request/response)
 	Ops    []opCfg `json:"ops,omitempty"`
 	// Flood > 0: instead of Ops, Flood async sends to topic FloodTopic with send timeout FloodMs.
@@ -126,6 +129,8 @@ type harness struct {
 	firstInitOnce       sync.Once
 
 	progress, started, inflight, reqDone atomic.Int64
+	normalReqs                           int
+	shutdownDone                         atomic.Bool
 	tokSeq, idSeq                        atomic.Int64
 	c                                    counters
 }
@@ -197,7 +202,10 @@ func isClosedErr(err error) bool {
 
 // relevant lists the close targets that may legitimately make a call of `own` towards `topic` fail.
 func (h *harness) relevant(own, topic int) []int {
-	r := []int{len(h.sc.Topics), topic}
+	r := []int{len(h.sc.Topics)}
+	if topic >= 0 {
+		r = append(r, topic)
+	}
 	if own >= 0 && own != topic {
 		r = append(r, own)
 	}
@@ -340,6 +348,13 @@ func (h *harness) closedList(idx []int) string {
 	return strings.Join(s, ",")
 }
 
+func (h *harness) topicName(t int) string {
+	if t < 0 {
+		return "orphan"
+	}
+	return h.tname[t]
+}
+
 func (h *harness) targetName(i int) string {
 	if i == len(h.sc.Topics) {
 		return "queue"
@@ -360,10 +375,11 @@ func (h *harness) send(g *gor, who string, cl queue.Client, own int, op opCfg, q
 	}
 	pre := anySet(h.returned, h.relevant(own, op.Topic)) // read before the call starts (O3)
 	i0 := h.initCount.Load()
-	msg := h.newMsg(cl, h.tname[op.Topic], ty, &payload{Token: token, Topic: op.Topic})
+	msg := h.newMsg(cl, h.topicName(op.Topic), ty, &payload{Token: token, Topic: op.Topic})
 	h.started.Add(1)
 	h.progress.Add(1)
-	if !op.Async {
+	counted := !op.Async && op.Topic >= 0 // orphan requests are not "requests in flight" for the non-triviality rule
+	if counted {
 		h.inflight.Add(1)
 	}
 	var err error
@@ -384,7 +400,7 @@ func (h *harness) send(g *gor, who string, cl queue.Client, own int, op opCfg, q
 	}
 	h.checkSendErr(who, token, own, op.Topic, op.SendMs, pre, err)
 	if op.Async || err != nil { // async: msg now belongs to the subscriber; error: callers drop the message
-		if !op.Async {
+		if counted {
 			h.inflight.Add(-1)
 		}
 		return nil
@@ -393,7 +409,9 @@ func (h *harness) send(g *gor, who string, cl queue.Client, own int, op opCfg, q
 }
 
 func (h *harness) wait(g *gor, who string, cl queue.Client, own int, p *pending) {
-	defer h.inflight.Add(-1)
+	if p.op.Topic >= 0 {
+		defer h.inflight.Add(-1)
+	}
 	sleepUs(p.op.GapUs)
 	i0 := h.initCount.Load()
 	var reply *queue.Message
@@ -444,8 +462,10 @@ func (h *harness) wait(g *gor, who string, cl queue.Client, own int, p *pending)
 }
 
 func (h *harness) requester(g *gor, ri int, plain queue.Client) {
-	defer h.reqDone.Add(1)
 	rc := h.sc.Reqs[ri]
+	if !rc.Orphan {
+		defer h.reqDone.Add(1)
+	}
 	cl := h.clientOf(rc.Client, plain)
 	who := fmt.Sprintf("req%d", ri)
 	if rc.Flood > 0 {
@@ -456,7 +476,7 @@ func (h *harness) requester(g *gor, ri int, plain queue.Client) {
 	if win < 1 {
 		win = 1
 	}
-	quiet := win > 8
+	quiet := win > 8 || rc.Orphan
 	for i := 0; i < len(rc.Ops); i += win {
 		var pend []*pending
 		for j := i; j < i+win && j < len(rc.Ops); j++ {
@@ -535,7 +555,7 @@ func (h *harness) closer(g *gor) {
 		idle = 200 * time.Millisecond // give the burst/flood sender time to really fill the channel
 	}
 	g.set("sleep", false)
-	for h.started.Load() < int64(cp.At) && h.reqDone.Load() < int64(len(h.sc.Reqs)) {
+	for h.started.Load() < int64(cp.At) && h.reqDone.Load() < int64(h.normalReqs) {
 		if p := h.progress.Load(); p != last {
 			last, lastChange = p, time.Now()
 		} else if time.Since(lastChange) > idle {
@@ -566,11 +586,9 @@ func (h *harness) closer(g *gor) {
 
 // postMortem: everything has been closed; from every client, to every topic, each flavour of send must be refused (O3).
 func (h *harness) postMortem(g *gor, who string, cl queue.Client, own int) {
-	for ti := range h.sc.Topics {
+	for ti := -1; ti < len(h.sc.Topics); ti++ {
 		for _, op := range []opCfg{{Topic: ti, SendMs: -1}, {Topic: ti, SendMs: 0}, {Topic: ti, SendMs: 2}, {Topic: ti, Async: true, SendMs: -1}, {Topic: ti, Async: true, SendMs: 0}, {Topic: ti, Async: true, SendMs: 2}} {
-			if p := h.send(g, who+"/post", cl, own, op, false); p != nil {
-				h.inflight.Add(-1) // O3 already failed the run; do not wait on it
-			}
+			h.send(g, who+"/post", cl, own, op, false) // a pending request here means O3 has already failed the run
 		}
 	}
 }
@@ -581,7 +599,7 @@ func runScenario(sc *scenario) (h *harness, viol string) {
 	nT := len(sc.Topics)
 	h = &harness{sc: sc, q: queue.New("c36"), freed: map[*queue.Message]bool{}, failed: make(chan struct{}), firstInit: make(chan struct{}),
 		initiated: make([]atomic.Bool, nT+1), returned: make([]atomic.Bool, nT+1)}
-	var consumers, workers []*gor
+	var consumers, workers, late []*gor
 	plains := make([]queue.Client, len(sc.Reqs))
 	for ti := range sc.Topics { // all fixtures exist before any goroutine starts
 		c := h.q.Client()
@@ -600,7 +618,18 @@ func runScenario(sc *scenario) (h *harness, viol string) {
 	}
 	for ri := range sc.Reqs {
 		ri := ri
-		workers = append(workers, h.spawn(fmt.Sprintf("req%d", ri), func(g *gor) { h.requester(g, ri, plains[ri]) }))
+		if !sc.Reqs[ri].Orphan {
+			h.normalReqs++
+		}
+	}
+	for ri := range sc.Reqs {
+		ri := ri
+		g := h.spawnOpt(fmt.Sprintf("req%d", ri), sc.Reqs[ri].Orphan, func(g *gor) { h.requester(g, ri, plains[ri]) })
+		if sc.Reqs[ri].Orphan {
+			late = append(late, g)
+		} else {
+			workers = append(workers, g)
+		}
 	}
 	if sc.Close != nil {
 		workers = append(workers, h.spawn("closer", h.closer))
@@ -620,6 +649,10 @@ func runScenario(sc *scenario) (h *harness, viol string) {
 		}
 	})
 	if v := h.join("final shutdown", []*gor{fin}); v != "" {
+		return h, v
+	}
+	h.shutdownDone.Store(true)
+	if v := h.join("requests to the unsubscribed topic", late); v != "" {
 		return h, v
 	}
 	var post []*gor
@@ -696,6 +729,17 @@ func genScenario(t *rapid.T) *scenario {
 			})
 		}
 		total += nOps
+		sc.Reqs = append(sc.Reqs, rc)
+	}
+	if rapid.IntRange(0, 3).Draw(t, "orphan") == 0 {
+		rc := reqCfg{Client: -1, Orphan: true, Window: rapid.SampledFrom([]int{1, 3, 100}).Draw(t, "orphanWindow")}
+		n := rapid.IntRange(1, 6).Draw(t, "orphanOps")
+		if rc.Window == 100 {
+			n = 100 // pipelined: parks in Send on the full high-priority channel of the unsubscribed topic
+		}
+		for o := 0; o < n; o++ {
+			rc.Ops = append(rc.Ops, opCfg{Topic: -1, SendMs: rapid.SampledFrom(sendsMs).Draw(t, "sendMs"), WaitUs: rapid.SampledFrom([]int{0, 0, 1000}).Draw(t, "waitUs")})
+		}
 		sc.Reqs = append(sc.Reqs, rc)
 	}
 	switch special {
@@ -778,7 +822,9 @@ func classify(sc *scenario, h *harness) {
 		lib.Class(fmt.Sprintf("plan:%d-closes", len(sc.Close.What)))
 	}
 	for _, r := range sc.Reqs {
-		if r.Flood > 0 {
+		if r.Orphan {
+			lib.Class("special:unsubscribed_topic")
+		} else if r.Flood > 0 {
 			lib.Class(fmt.Sprintf("special:flood(send_ms=%d)", r.FloodMs))
 		} else if r.Window > 8 {
 			lib.Class("special:burst")
